@@ -215,6 +215,12 @@ def exec_for(E, node, st):
         s, acc, n = src
         # complete unrolling for tuples / constant-length sources
         cn = n if isinstance(n, int) else _const_int(n)
+        if cn is None and ls is None and itv.kind.tag != "tuple":
+            # a length the path condition pins down (e.g. a precondition len(xs) == 2): complete unrolling
+            for kk in range(0, 5):
+                if not E.feasible(s, n != kk):
+                    cn = kk
+                    break
         if itv.kind.tag == "tuple":
             return _unroll(E, node, s, [x for x in itv.t])
         if cn is not None and cn <= 8 and ls is None:
